@@ -124,8 +124,19 @@ def doWrite (d : DState) (op : Op) : IO DState := do
       if legal then
         out "=ret ok"
         let states := match op with
-          | .append es => batchStates d.spec es
+          | .append es =>
+            let all := batchStates d.spec es
+            -- a batch interrupted by an I/O failure (rotation could not create the next file)
+            -- has journalled and applied only a prefix of its entries
+            match res, sys'.store with
+            | .err .exists, some ms => (all.takeWhile (fun (x : RefLog) => x.last != ms.st.last)) ++
+                                        (all.filter (fun (x : RefLog) => x.last == ms.st.last)).take 1
+            | _, _ => all
           | _ => if opWrites d.spec op == 0 then [] else [r']
+        let r' := match op, states.getLast? with
+          | .append _, some x => x
+          | .append _, none => d.spec
+          | _, _ => r'
         d := { d with spec := r', hist := states.foldl (fun h s => h.push s) d.hist }
       else
         out "=off illegal"
